@@ -459,6 +459,10 @@ class Context:
         error_prototype = JSObject()
         error_prototype.set("name", error_name)
         error_prototype.set("message", "")
+        # TypeError.prototype etc. inherit from Error.prototype
+        base = self._globals.get("Error")
+        if error_name != "Error" and isinstance(base, JSObject):
+            error_prototype._prototype = base.get("prototype")
 
         def error_constructor(*args):
             message = args[0] if args else UNDEFINED
@@ -466,8 +470,8 @@ class Context:
             err.set("message", to_string(message) if message is not UNDEFINED else "")
             err.set("name", error_name)
             err.set("stack", "")  # Stack trace placeholder
-            err.set("lineNumber", None)  # Will be set when error is thrown
-            err.set("columnNumber", None)  # Will be set when error is thrown
+            err.set("lineNumber", UNDEFINED)  # Will be set when error is thrown
+            err.set("columnNumber", UNDEFINED)  # Will be set when error is thrown
             return err
 
         constructor = JSCallableObject(error_constructor)
